@@ -83,6 +83,12 @@ fn public(name: &str, a: &[Vec<u8>]) -> Option<Vec<Vec<u8>>> {
             let mut n = p; n.normalize(); vec![enc(p + q), enc(p - q), enc(-p), enc(p * k), enc(k * p), enc(n), vec![p.is_zero() as u8], vec![(p == q) as u8]] }
         "g2_wrap_ops" => { let (p, q) = (g2v(&a[0]), g2v(&a[1])); let k = Fr::from_slice(&a[2]).unwrap(); let enc = |g: G2| { let mut v = fq2_bytes(g.x()); v.extend(fq2_bytes(g.y())); v.extend(fq2_bytes(g.z())); v };
             let mut n = p; n.normalize(); vec![enc(p + q), enc(p - q), enc(-p), enc(p * k), enc(k * p), enc(n), vec![p.is_zero() as u8], vec![(p == q) as u8]] }
+        // Gt public operations on g = pairing(p, q), h = pairing(p2, q): [g*h, h*g, g*one, one*g, g^k, inverse(g), g*inverse(g), g == h, one]
+        "gt_ops" => { let g = pairing(g1v(&a[0]), g2v(&a[1])); let h = pairing(g1v(&a[2]), g2v(&a[1])); let k = Fr::from_slice(&a[3]).unwrap();
+            let gi = g.inverse();
+            vec![(g * h).to_slice().to_vec(), (h * g).to_slice().to_vec(), (g * Gt::one()).to_slice().to_vec(), (Gt::one() * g).to_slice().to_vec(),
+                 g.pow(k).to_slice().to_vec(), match gi { Some(x) => x.to_slice().to_vec(), None => vec![] },
+                 match gi { Some(x) => (g * x).to_slice().to_vec(), None => vec![] }, vec![(g == h) as u8], Gt::one().to_slice().to_vec(), g.to_slice().to_vec(), h.to_slice().to_vec()] }
         "pairing" => vec![pairing(g1v(&a[0]), g2v(&a[1])).to_slice().to_vec()],
         "fast_pairing" => vec![fast_pairing(g1v(&a[0]), g2v(&a[1])).to_slice().to_vec()],
         "prepared_pairing" => { let p = G2Prepared::from(g2v(&a[1])); let mut out = vec![]; for k in 0..a.len() { if k != 1 { out.push(p.pairing(&g1v(&a[k])).to_slice().to_vec()); } } out }
